@@ -13,7 +13,11 @@ NAMES = ["a", "b", "c"]
 
 
 def definition(i):
-    return [("Subject", ":is", "s%d" % i)], [("fileinto", "F%d" % i)]
+    """definition number i; each number needs its own extra extension, so that a refused operation that touched the set's
+    requirements shows in the rendering"""
+    conds = [[("Subject", ":is", "s%d" % i)], [("envelope", ":is", ["from"], ["s%d" % i])], [("body", ":raw", ":contains", "s%d" % i)]][i % 3]
+    acts = [[("fileinto", "F%d" % i)], [("fileinto", ":copy", "F%d" % i)], [("fileinto", ":create", "F%d" % i)]][i % 3]
+    return conds, acts
 
 
 def core_of(content):
@@ -60,6 +64,17 @@ def nm(x):
 
 
 def apply_real(fs, op):
+    before = str(fs)
+    out = _apply_real(fs, op)
+    res = out.split(" ")[0]
+    if res in ("res=exists", "res=b0", "res=none") or op[0] in ("isdis", "get"):
+        after = str(fs)
+        if after != before:
+            out += " RENDERING-CHANGED-BY-A-REFUSED-OR-READ-ONLY-OPERATION"
+    return out
+
+
+def _apply_real(fs, op):
     op = tuple(nm(x) if (i in (1, 2) and isinstance(x, str) and x not in ("-", "up", "down")) else x for i, x in enumerate(op))
     try:
         k = op[0]
